@@ -50,9 +50,9 @@ prop("C02", coq_deps=AUTHZ_DEPS + ["TokenProofs.v", "SymbolsProofs.v", "WireProo
      trusted=AUTHZ_TRUSTED + ["dangling symbol indexes are refused by Unmarshal since fix 6773711 (modelled in Token.unmarshal_blocks); the capture attempt is replayed at every symbol position on every run"],
      assumptions=["T <> [] (a token has an authority block)",
                   "C02_token_attenuation (Properties/C02_tokens.v) states the property for library tokens with their symbol tables: a block built once from CreateBlock of the token (token_inv)"])
-prop("C03", coq_deps=AUTHZ_DEPS,
+prop("C03", coq_deps=AUTHZ_DEPS + ["TokenProofs.v", "SymbolsProofs.v", "WireProofs.v", "Token.v", "Wire.v", "Symbols.v", "DTerm.v", "Chain.v", "History.v"],
      theorems=["C03_authority_phase_blind", "C03_blocks_independent", "C03_other_blocks_unaffected", "C03_block_facts_local",
-               "C03_block_insert", "C03_state_blind", "C03_queries_blind", "C03_authority_visible"],
+               "C03_block_insert", "C03_state_blind", "C03_queries_blind", "C03_authority_visible", "C03_token_append_state_blind"],
      trusted=AUTHZ_TRUSTED, assumptions=[])
 prop("C04", coq_deps=AUTHZ_DEPS + ["DatalogProofs.v", "OrderProofs.v"],
      theorems=["C04_verdict_structure", "C04_success_iff", "C04_precedence", "C04_decision", "C04_first_match", "C04_no_match",
